@@ -182,6 +182,11 @@ func runC16(r *fw.Runner) {
 	for b := 0; b < r.N(6, 100); b++ {
 		r.Case("used-key-relabelled", func(c *fw.Case) { c16Relabelled(c) })
 	}
+	// reveal values and commitments computed from a key by the long-form client equal the ones computed by the harness from the key
+	// (every request it builds must open the commitment installed before it, also across a change of hash algorithm)
+	for b := 0; b < r.N(12, 100); b++ {
+		r.Case("client-computed-reveal-values", func(c *fw.Case) { c08Client(c) })
+	}
 	for b := 0; b < r.N(6, 100); b++ {
 		r.Case("raw-json-member-names", func(c *fw.Case) { c16RawMembers(c) })
 	}
@@ -525,6 +530,34 @@ func c16Reuse(c *fw.Case, jb []byte, fresh *jwsutil.JWK) {
 // 32-byte curve (the point is not on that curve): rejected whatever was seen before, by VerifySignature and by UnmarshalJSON.
 func c16Relabelled(c *fw.Case) {
 	r := c.Rng
+	// reading a JWK (verifying with it, extracting its key) leaves the caller's object as it was - nonce included - so that
+	// commitments computed from it before and after agree
+	for _, typ := range gen.AllKeyTypes {
+		k := gen.NewKey(r, typ)
+		if r.Chance(2, 3) {
+			k = k.WithNonce(r, 16)
+		}
+		jwk := toLibJWK(k.JWK())
+		before := *jwk
+		c1, _ := commitment.GetCommitment(jwk, 18)
+		msg := r.Bytes(r.Range(1, 64))
+		sig := k.Sign(r, msg)
+		c.Count("jwk-unchanged-by-reading", 1)
+		c.Evals(2)
+		c.Sig("jwk-read", typ, k.Nonce != "")
+		if err := jwsutil.VerifySignature(jwk, sig, msg); err != nil {
+			c.Failf("genuine-key-refused", map[string]interface{}{"jwk": k.JWK(), "err": err.Error()}, "signature does not verify under its own key: %v", err)
+			continue
+		}
+		if typ == gen.Ed25519 {
+			jwsutil.GetED25519PublicKey(jwk)
+		}
+		c2, _ := commitment.GetCommitment(jwk, 18)
+		if *jwk != before || c1 != c2 {
+			c.Failf("jwk-changed-by-reading", map[string]interface{}{"jwk_before": before, "jwk_after": *jwk, "commitment_before": c1, "commitment_after": c2},
+				"verifying with a %s JWK changed the caller's JWK object (commitment before %s, after %s)", typ, c1, c2)
+		}
+	}
 	for _, typ := range []string{gen.P256, gen.Secp256k1} {
 		for i := 0; i < 4; i++ {
 			k := gen.NewKey(r, typ)
